@@ -108,7 +108,7 @@ FORMULA = ("; expression shapes read off MIR by direct provenance (documented fo
            "by abstract interpretation, loop must-pass-through; reports are cross-checked on a second view with unknown helpers inlined")
 EXTRA_TEXT = {
     "C01": " Also decided: the formula, forbid rule and depot-kind table of can_reach, the turnaround formula with its same-place test, the receiver type table.",
-    "C02": " Also decided: comparator direction of the guards, which limit the combined value is taken from, capacity_for capped by the total, no Ok before the capacity test, both kind tests dominate every growth site, a departure reads the limit of its own route segment.",
+    "C02": " Also decided: comparator direction of the guards, which limit the combined value is taken from, capacity_for capped by the total, no Ok before the capacity test, both kind tests dominate every growth site, a departure reads the limit of its own route segment, the usage queries answer from the usage map for every depot and every type.",
     "C03": " Also decided: polarity of the dead-head listing and the two documented placements of a dead-head trip, the three formation edits (unconditional push, order-keeping replace/remove), no dropping adaptor in front of a formation update.",
     "C04": " Also decided: the signs and operand sides of every incremental update (tour figures, schedule costs, transition totals and cycle counters), the maintenance-counter and idle-time formulas, unscaled indicators. Values are not decided.",
     "C05": " Also decided: the successor formula (p+1 mod len) and that the initial clustering loses no vehicle.",
@@ -119,7 +119,7 @@ EXTRA_TEXT = {
     "C11": " Also decided: strict free-track filter in front of the workload sort, hitch-hiking refuses conflicts, swap steps build on each other, receiver type check for dummy providers, one substitute for infinity.",
     "C12": " Also decided: bisection stop test and which node time each search reads, reference times, both halves of the gap-test guard, loop form of the walks, depots of a path stripped independently for dummy tours, Path::new validates every hop, the two node orders, Infinity - x = Infinity, the gap test reached for dummy and real tours.",
     "C13": " Also decided: remove_segment guard, enumerate-before-filter in fit_path_into_tour, overwrite index of the overflow fallback, order-keeping formation edits, None-only-if-reachable of the two position searches, hitch-hiking refuses conflicts, the steps of a swap build on each other, the depot test of update_train_formation.",
-    "C14": " Also decided: direction of all four arc kinds, connection bound/cost forms, decoder key provenance, zero-flow polarity, end depots decoded, spawning cost over all five rates, idle cost waived only next to a depot, the range sentinels are the extremes of the derived NodeIdx order, the turnaround tables, Nowhere infinitely far in both directions, the decoder takes the tour it continues.",
+    "C14": " Also decided: direction of all four arc kinds, connection bound/cost forms, decoder key provenance, zero-flow polarity, end depots decoded, spawning cost over all five rates, idle cost waived only next to a depot, the range sentinels are the extremes of the derived NodeIdx order, the turnaround tables, Nowhere infinitely far in both directions, the decoder takes the tour it continues, every vehicle type is solved, durations priced in seconds.",
     "C15": " Also decided since §7.4: cycle neighbours (p-1/p+1 with wrap tests, end/start depots), counter deltas with signs, total signs and clamping, 3-opt transfer operands, the four slices of the new cycle, index order i<j<k, lookup written on every path.",
     "C16": " Also decided: maintenance_considered polarity, successor formula with wrap-around, transitions stored (not merged).",
     "C17": " Also decided: network formulas and predicates (can_reach, turnaround, idle time, duration, Nowhere => Infinity, type compatibility), overflow capacity formula, loader completeness loops, zero-passenger substitution.",
